@@ -1,10 +1,159 @@
 (* props/C16.v - property C16: MMR index arithmetic matches the explicit forest of perfect trees.
-   Only statements, each closed by `exact`, each followed by Print Assumptions. *)
+   Only statements, each closed by `exact`, each followed by Print Assumptions.
+
+   Vocabulary.  gen/MmrIndexGen.v: the translated Rust functions f and their side conditions f_ok
+   (f_ok = true  <->  no overflow, no out-of-range shift, no failing assert!).  model/MmrIndex.v: mm_f, the
+   hand-written models of the looping functions (Some v = returns v without panic and within the fuel).
+   spec/Forest.v: forest n = the perfect trees of the MMR with n leafs, laid out in post-order; f_locate n x =
+   (peak index, tree, nodeinfo) of node x; spec_* = the structural answers. *)
 From Coq Require Import ZArith Bool List.
-From TF Require Import Word MmrIndexGen MmrIndex Forest MmrIndexProofs.
+From TF Require Import Word MmrIndexGen MmrIndex Forest MmrIndexProofs MmrIndexLoops MmrIndexMain.
 Import ListNotations.
 Open Scope Z_scope.
 
-Theorem C16_right_child_no_overflow : forall x, 1 <= x -> right_child_ok x = true.
-Proof. exact right_child_ok_all. Qed.
-Print Assumptions C16_right_child_no_overflow.
+(* ------------------------------------------------------------------ straight-line functions: arithmetic *)
+Theorem C16_left_child : forall x h, 0 <= h < 64 -> 2 ^ h <= x < 2 ^ 64 ->
+  left_child_ok x h = true /\ left_child x h = x - 2 ^ h.
+Proof. exact left_child_val. Qed.
+Print Assumptions C16_left_child.
+
+Theorem C16_right_child : forall x, 1 <= x < 2 ^ 64 -> right_child_ok x = true /\ right_child x = x - 1.
+Proof. exact right_child_val. Qed.
+Print Assumptions C16_right_child.
+
+Theorem C16_left_sibling : forall x h, 0 <= h < 63 -> 2 ^ (h + 1) <= x < 2 ^ 64 ->
+  left_sibling_ok x h = true /\ left_sibling x h = x - 2 ^ (h + 1) + 1.
+Proof. exact left_sibling_val. Qed.
+Print Assumptions C16_left_sibling.
+
+Theorem C16_right_sibling : forall x h, 0 <= h < 63 -> 0 <= x -> x + 2 ^ (h + 1) < 2 ^ 64 ->
+  right_sibling_ok x h = true /\ right_sibling x h = x + 2 ^ (h + 1) - 1.
+Proof. exact right_sibling_val. Qed.
+Print Assumptions C16_right_sibling.
+
+(* the smallest perfect tree at offset 0 that contains node x (capped at height 63), for EVERY u64 x >= 1 *)
+Theorem C16_leftmost_ancestor : forall x, 1 <= x < 2 ^ 64 ->
+  leftmost_ancestor_ok x = true /\
+  exists H : nat, (H <= 63)%nat /\ leftmost_ancestor x = (tsize H, Z.of_nat H) /\ tleafs H <= x <= tsize H.
+Proof. exact leftmost_ancestor_val. Qed.
+Print Assumptions C16_leftmost_ancestor.
+
+(* ------------------------------------------------------------------ leafs *)
+(* 2i - popcount i + 1 is the post-order position of leaf i, in every MMR that contains it *)
+Theorem C16_leaf_index_to_node_index : forall n i, 0 <= i < n -> n <= 2 ^ 63 ->
+  leaf_index_to_node_index_ok i = true /\
+  spec_leaf_index_to_node_index n i = Some (leaf_index_to_node_index i).
+Proof. exact main_leaf_index_to_node_index. Qed.
+Print Assumptions C16_leaf_index_to_node_index.
+Example C16_leaf_index_to_node_index_ex : spec_leaf_index_to_node_index 11 9 = Some 17. Proof. reflexivity. Qed.
+
+Theorem C16_num_leafs_to_num_nodes : forall n, 0 <= n < 2 ^ 63 ->
+  num_leafs_to_num_nodes_ok n = true /\ spec_node_count n = num_leafs_to_num_nodes n.
+Proof. exact spec_node_count_correct. Qed.
+Print Assumptions C16_num_leafs_to_num_nodes.
+
+Theorem C16_forest_has_n_leafs : forall n, 0 <= n < 2 ^ 64 -> spec_leaf_count_of_forest n = n.
+Proof. exact spec_leaf_count_correct. Qed.
+Print Assumptions C16_forest_has_n_leafs.
+
+(* xor / ilog2 / popcount: local Merkle tree index and peak index; for every u64 pair with i < n *)
+Theorem C16_mt_index_and_peak_index : forall n i, 0 <= i < n -> n < 2 ^ 64 ->
+  leaf_index_to_mt_index_and_peak_index_ok i n = true /\
+  spec_mt_index_and_peak_index n i = Some (leaf_index_to_mt_index_and_peak_index i n).
+Proof. exact leaf_index_to_mt_index_and_peak_index_correct. Qed.
+Print Assumptions C16_mt_index_and_peak_index.
+Example C16_mt_index_and_peak_index_ex : spec_mt_index_and_peak_index 11 9 = Some (3, 1). Proof. reflexivity. Qed.
+
+(* out of contract: the assert! fires *)
+Theorem C16_mt_index_out_of_bounds_panics : forall n i, n <= i ->
+  leaf_index_to_mt_index_and_peak_index_ok i n = false.
+Proof. exact main_mt_out_of_bounds. Qed.
+Print Assumptions C16_mt_index_out_of_bounds_panics.
+
+(* (i+1) & !i : the right lineage length of leaf i's node *)
+Theorem C16_right_lineage_length_from_leaf_index : forall n i, 0 <= i < n -> n < 2 ^ 63 ->
+  right_lineage_length_from_leaf_index_ok i = true /\
+  spec_leaf_rll n i = Some (right_lineage_length_from_leaf_index i).
+Proof. exact main_right_lineage_length_from_leaf_index. Qed.
+Print Assumptions C16_right_lineage_length_from_leaf_index.
+
+(* ... which is the number of trailing ones of i *)
+Theorem C16_right_lineage_length_trailing_ones : forall (t : nat) i, (t <= 63)%nat -> 0 <= i < 2 ^ 64 - 1 ->
+  i mod 2 ^ (Z.of_nat t + 1) = 2 ^ Z.of_nat t - 1 ->
+  right_lineage_length_from_leaf_index_ok i = true /\ right_lineage_length_from_leaf_index i = Z.of_nat t.
+Proof. exact right_lineage_length_from_leaf_index_char. Qed.
+Print Assumptions C16_right_lineage_length_trailing_ones.
+Example C16_trailing_ones_ex : 11 mod 2 ^ (Z.of_nat 2 + 1) = 2 ^ Z.of_nat 2 - 1. Proof. reflexivity. Qed.
+
+(* ------------------------------------------------------------------ nodes *)
+(* every node of every MMR below 2^63 leafs: height, right lineage length (both algorithms), leaf index *)
+Theorem C16_node : forall n x, 0 <= n < 2 ^ 63 -> 1 <= x <= spec_node_count n ->
+  exists pk t ni, f_locate n x = Some (pk, t, ni) /\
+    mm_right_lineage_length_and_own_height x = Some (ni_rll ni, ni_height ni) /\
+    mm_right_lineage_length_from_node_index x = Some (ni_rll ni) /\
+    mm_node_index_to_leaf_index x = Some (if ni_height ni =? 0 then Some (ni_first_leaf ni) else None).
+Proof. exact main_node. Qed.
+Print Assumptions C16_node.
+Example C16_node_ex : exists ni, f_locate 11 13 = Some (0, PTree 3 0 0, ni) /\ ni_rll ni = 2 /\ ni_height ni = 1.
+Proof. eexists. split; [reflexivity|]. split; reflexivity. Qed.
+
+(* the three functions whose tests are named *_does_not_crash (and node_index_to_leaf_index): every u64 >= 1 *)
+Theorem C16_does_not_crash : forall x, 1 <= x < 2 ^ 64 ->
+  leftmost_ancestor_ok x = true /\
+  (exists r h, mm_right_lineage_length_and_own_height x = Some (r, h)) /\
+  (exists r, mm_right_lineage_length_from_node_index x = Some r) /\
+  (exists r, mm_node_index_to_leaf_index x = Some r).
+Proof. exact main_does_not_crash. Qed.
+Print Assumptions C16_does_not_crash.
+
+Theorem C16_is_right_child : forall n x pk t ni, 0 <= n < 2 ^ 63 -> 1 <= x <= spec_node_count n ->
+  f_locate n x = Some (pk, t, ni) -> (ni_is_right ni = true <-> ni_rll ni <> 0).
+Proof. exact main_is_right. Qed.
+Print Assumptions C16_is_right_child.
+
+Theorem C16_parent : forall n x pk t ni p, 0 <= n < 2 ^ 63 -> 1 <= x <= spec_node_count n ->
+  f_locate n x = Some (pk, t, ni) -> ni_parent ni = Some p -> mm_parent x = Some p.
+Proof. exact main_parent. Qed.
+Print Assumptions C16_parent.
+Example C16_parent_ex : exists pk t ni, f_locate 11 13 = Some (pk, t, ni) /\ ni_parent ni = Some 14.
+Proof. do 3 eexists. split; reflexivity. Qed.
+
+Theorem C16_sibling : forall n x pk t ni s, 0 <= n < 2 ^ 63 -> 1 <= x <= spec_node_count n ->
+  f_locate n x = Some (pk, t, ni) -> ni_sibling ni = Some s ->
+  (if ni_is_right ni then mm_left_sibling x (ni_height ni) else mm_right_sibling x (ni_height ni)) = Some s.
+Proof. exact main_sibling. Qed.
+Print Assumptions C16_sibling.
+
+Theorem C16_children : forall n x pk t ni lc rc, 0 <= n < 2 ^ 63 -> 1 <= x <= spec_node_count n ->
+  f_locate n x = Some (pk, t, ni) -> ni_children ni = Some (lc, rc) ->
+  mm_left_child x (ni_height ni) = Some lc /\ mm_right_child x = Some rc.
+Proof. exact main_children. Qed.
+Print Assumptions C16_children.
+
+Theorem C16_node_index_to_leaf_index : forall n x, 0 <= n < 2 ^ 63 -> 1 <= x <= spec_node_count n ->
+  spec_node_index_to_leaf_index n x = mm_node_index_to_leaf_index x.
+Proof. exact main_node_index_to_leaf_index. Qed.
+Print Assumptions C16_node_index_to_leaf_index.
+
+Theorem C16_leaf_node_round_trip : forall i, 0 <= i < 2 ^ 63 ->
+  mm_node_index_to_leaf_index (leaf_index_to_node_index i) = Some (Some i).
+Proof. exact main_leaf_node_round_trip. Qed.
+Print Assumptions C16_leaf_node_round_trip.
+
+(* ------------------------------------------------------------------ peaks, append *)
+Theorem C16_peak_heights : forall n, 0 <= n < 2 ^ 64 -> mm_get_peak_heights n = Some (spec_peak_heights n).
+Proof. exact peak_heights_correct. Qed.
+Print Assumptions C16_peak_heights.
+
+Theorem C16_peak_heights_and_peak_node_indices : forall n, 0 <= n < 2 ^ 63 ->
+  mm_get_peak_heights_and_peak_node_indices n = Some (spec_peak_heights n, spec_peak_node_indices n).
+Proof. exact peaks_correct. Qed.
+Print Assumptions C16_peak_heights_and_peak_node_indices.
+Example C16_peaks_ex : (spec_peak_heights 11, spec_peak_node_indices 11) = ([3; 1; 0], [15; 18; 19]).
+Proof. reflexivity. Qed.
+
+Theorem C16_node_indices_added_by_append : forall n, 0 <= n < 2 ^ 63 ->
+  mm_node_indices_added_by_append n = Some (spec_added_by_append n).
+Proof. exact added_by_append_correct. Qed.
+Print Assumptions C16_node_indices_added_by_append.
+Example C16_added_ex : spec_added_by_append 7 = [12; 13; 14; 15]. Proof. reflexivity. Qed.
